@@ -304,7 +304,7 @@ def run_lines(exe, lines, timeout=900, env=None, shards=NPROC):
         rc, ol, err = results[k]
         idxs = list(range(k, len(lines), n))
         for j, i in enumerate(idxs):
-            if j < len(ol) and (j < len(ol) - 1 or ol[j] != ""):
+            if j < len(ol) - 1 or (j == len(ol) - 1 and ol[j] != ""):
                 out[i] = ol[j]
             else:
                 out[i] = "!CRASH rc=%s %s" % (rc, (err or "").strip().split("\n")[-1][:200])
@@ -314,7 +314,7 @@ def run_lines(exe, lines, timeout=900, env=None, shards=NPROC):
 def run_one(exe, line, timeout=60, env=None):
     rc, o, e, _ = sh([exe] if isinstance(exe, str) else exe, inp=line + "\n", timeout=timeout, env=env)
     ol = o.split("\n")
-    if rc != 0 or not ol or ol[0] == "":
+    if rc != 0 or len(ol) < 2:
         return "!CRASH rc=%s %s" % (rc, (e or "").strip().split("\n")[-1][:200])
     return ol[0]
 
